@@ -162,6 +162,9 @@ def _frame_one(case, lay, y, X, w, bad0, numpy, BaseTimeSeries, build_ts_X_y):
 
 
 
+UNITS = (1e-6, 1e-20, 1e-30, 2.0 ** -200, 1e-150, 1e6, 1e20, 2.0 ** 200, 1e150)
+
+
 def _mape(case):
     import numpy
     from mlinsights.timeseries.metrics import ts_mape
@@ -200,6 +203,18 @@ def _mape(case):
                 continue  # masked: ratio undefined (every term masked)
             if f < 0:
                 bad("negative", "y=%r pred=%r -> %r" % (case["y"], p, v))
+            # the metric is a ratio of two sums in the unit of the series: the same series and forecast in another unit
+            # (micro-units, 1e-20, 2^-200 ... 1e150) give the same value
+            if w is None and n <= 4 and nonconst and numpy.isfinite(f):
+                for unit in UNITS:
+                    cnt += 1
+                    try:
+                        fu = float(ts_mape(y * unit, pred * unit))
+                    except Exception as e:
+                        bad("raises %s" % type(e).__name__, "%s y=%r pred=%r in unit %r" % (e, case["y"], p, unit))
+                        continue
+                    if not abs(fu - f) <= 1e-9 * max(1.0, abs(f)):
+                        bad("value depends on the unit of the series", "y=%r pred=%r: %r in unit 1, %r in unit %r" % (case["y"], p, f, fu, unit))
             if w is None and not numpy.isnan(pred).any() and n >= 2:
                 den = numpy.abs(numpy.diff(y)).sum()
                 num = numpy.abs(pred[1:] - y[1:]).sum()
